@@ -129,6 +129,7 @@ func observeKeeper(comp string, k interface{}, ctx sdk.Context, light bool) []Pa
 			if !ne {
 				return
 			}
+			auditAnswer(res)
 			key := fmt.Sprint(args)
 			answers[key] = res
 			d, _ := digestJSON(res)
@@ -137,6 +138,7 @@ func observeKeeper(comp string, k interface{}, ctx sdk.Context, light bool) []Pa
 		switch nargs {
 		case 0:
 			res, _ := callGetter(m, pctx, nil)
+			auditAnswer(res)
 			answers["[]"] = res
 			rv := reflect.ValueOf(res)
 			switch rv.Kind() {
